@@ -745,3 +745,119 @@ func (w *World) sliceStorageOwned(v ssa.Value) (bool, string) {
 	ok := walk(v, 0)
 	return ok, why
 }
+
+// apiForwarding: the top-level package re-exports the sub-packages' functions through one-line
+// forwarders. Structural obligation <func>#forwards for every such forwarder: its body is a single
+// call of a module function, every parameter is handed over exactly once, in declaration order
+// (a parameter may be adjusted by a constant, as in depth+1; additional arguments are constants),
+// and the call's results are returned unchanged. The obligation belongs to every property the
+// callee's contract belongs to: a forwarder that swaps or drops arguments breaks what the callee
+// guarantees to the API user.
+func (w *World) apiForwarding(prop string) []*FuncResult {
+	var out []*FuncResult
+	var fns []*ssa.Function
+	for fn := range w.AllFuncs {
+		if fn.Pkg == nil || fn.Pkg.Pkg.Path() != w.ModPath || len(fn.Blocks) != 1 || fn.Synthetic != "" || fn.Signature.Recv() != nil || fn.Parent() != nil {
+			continue
+		}
+		if pos := w.Fset.Position(fn.Pos()); !strings.HasSuffix(pos.Filename, "_api.go") {
+			continue
+		}
+		fns = append(fns, fn)
+	}
+	sort.Slice(fns, func(i, j int) bool { return fns[i].String() < fns[j].String() })
+	for _, fn := range fns {
+		var call *ssa.Call
+		ncalls := 0
+		other := ""
+		for _, ins := range fn.Blocks[0].Instrs {
+			switch x := ins.(type) {
+			case *ssa.Call:
+				if _, isB := x.Call.Value.(*ssa.Builtin); isB {
+					other = "builtin call"
+					continue
+				}
+				ncalls++
+				call = x
+			case *ssa.BinOp, *ssa.Return, *ssa.Extract, *ssa.DebugRef, *ssa.ChangeType, *ssa.MakeInterface, *ssa.ChangeInterface:
+			default:
+				other = fmt.Sprintf("%T", ins)
+			}
+		}
+		if ncalls != 1 || other != "" {
+			continue // not a one-line forwarder
+		}
+		callee := call.Call.StaticCallee()
+		if callee == nil || callee.Pkg == nil || !w.InModule(callee.Pkg.Pkg) || call.Call.IsInvoke() {
+			continue
+		}
+		ctr := w.Contracts[callee]
+		if ctr == nil || !contractMentions(ctr, prop) {
+			continue
+		}
+		name := w.funcName(fn)
+		ok, why := true, ""
+		next := 0 // index of the next parameter expected
+		for _, a := range call.Call.Args {
+			v := a
+			for {
+				switch y := v.(type) {
+				case *ssa.ChangeType:
+					v = y.X
+					continue
+				case *ssa.MakeInterface:
+					v = y.X
+					continue
+				case *ssa.ChangeInterface:
+					v = y.X
+					continue
+				}
+				break
+			}
+			if bo, isBO := v.(*ssa.BinOp); isBO {
+				if _, isC := bo.Y.(*ssa.Const); isC {
+					v = bo.X
+				} else if _, isC := bo.X.(*ssa.Const); isC {
+					v = bo.Y
+				}
+			}
+			switch y := v.(type) {
+			case *ssa.Const:
+			case *ssa.Parameter:
+				idx := -1
+				for i, p := range fn.Params {
+					if p == y {
+						idx = i
+					}
+				}
+				if idx != next {
+					ok, why = false, fmt.Sprintf("parameter %s is handed over out of order (expected %s)", y.Name(), paramNameAt(fn, next))
+				}
+				next = idx + 1
+			default:
+				ok, why = false, fmt.Sprintf("argument computed from something other than a parameter or a constant (%T)", v)
+			}
+		}
+		if ok && next != len(fn.Params) {
+			ok, why = false, fmt.Sprintf("parameter %s is not handed over", paramNameAt(fn, next))
+		}
+		o := &Obligation{Name: name + "#forwards", Func: name, Kind: "post", Props: append([]string{}, ctr.Props...),
+			Text: "API forwarder hands its parameters, in order, to " + w.funcName(callee) + " (structural)", Pos: w.Fset.Position(fn.Pos()).String()}
+		q := &Query{Goal: tTrue, Status: "trivial"}
+		if !ok {
+			q.Goal, q.Status = tFalse, ""
+			q.Output = why
+			o.Text += " -- " + why
+		}
+		o.Queries = []*Query{q}
+		out = append(out, &FuncResult{Name: name, Fn: fn, Obls: []*Obligation{o}})
+	}
+	return out
+}
+
+func paramNameAt(fn *ssa.Function, i int) string {
+	if i >= 0 && i < len(fn.Params) {
+		return fn.Params[i].Name()
+	}
+	return "<none>"
+}
